@@ -1256,9 +1256,27 @@ class FnRewriter:
                         j = e
                     continue
                 else:
+                    r22 = self._auto_closure(j, ce, hi, pathmap) if overlay_piece else None
                     for q in range(j, ce + 1):
                         out(toks[q].text, q)
                     j = ce + 1
+                    if r22 is None and overlay_piece:
+                        # a closure the verifier knows nothing about (no annotation, no automatic postcondition):
+                        # recorded so that vunit can compare with the unit's closure fingerprint
+                        self.log.append({'rule': 'opaque-closure', 'fn': self.fnkey, 'line': self.sf.line_of(t.start),
+                                         'callee': callee or '?', 'what': 'closure %d (argument of `%s`) has no contract' % (n, callee or '?')})
+                    if r22 is not None:
+                        # R22 auto-closure-ensures: an un-annotated closure whose body is one side-effect-free
+                        # expression gets the postcondition "result == that expression", so that a combinator
+                        # receiving it (map, map_or, unwrap_or_else, ..) knows what it computes.
+                        marker, b_lo, b_hi, spec_text = r22
+                        self.log.append({'rule': 'R22', 'fn': self.fnkey, 'line': self.sf.line_of(t.start),
+                                         'what': 'closure %d: automatic postcondition `%s == %s`'
+                                                 % (n, marker, ' '.join(spec_text.split())[:120])})
+                        out(' -> (%s: _) ensures __same_val(%s, %s) {' % (marker, marker, ' '.join(spec_text.split())), j - 1)
+                        self._emit_range(b_lo, b_hi, out, rw, pathmap, in_body, overlay_piece)
+                        out('}', b_hi - 1)
+                        j = b_hi
                     continue
             if (in_body and t.kind == 'punct' and t.text == '?' and self.unit.get('_try_convert')):
                 # R21 try-convert (item key "try_convert": "<ErrType>"): `E?` -> `E.q_into::<ErrType>()?`.
@@ -1272,6 +1290,87 @@ class FnRewriter:
                 continue
             out(t.text, j)
             j += 1
+
+    def _auto_closure(self, bar_o, bar_c, hi, pathmap):
+        """R22: (marker, body_lo, body_hi, spec_text) if the closure literal whose header is toks[bar_o..bar_c]
+        qualifies for an automatic postcondition, else None.  Qualifies: every parameter is a plain identifier
+        (optionally typed), no declared return type, and the body is a single expression without statements,
+        loops, jumps, `?`, `.await`, macros, nested closures, assignments or `&mut`."""
+        toks = self.sf.toks
+        off = self.unit.get('_auto_off')
+        if off == 'ALL':
+            return None
+        # parameters
+        params = [x for x in toks[bar_o + 1:bar_c] if x.kind not in ('ws', 'comment')]
+        depth = 0
+        expect_name = True
+        for x in params:
+            if x.kind == 'punct' and x.text in '(<[':
+                if expect_name:
+                    return None          # pattern parameter
+                depth += 1
+            elif x.kind == 'punct' and x.text in ')>]':
+                depth -= 1
+            elif depth == 0 and x.kind == 'punct' and x.text == ',':
+                expect_name = True
+            elif expect_name:
+                if x.kind != 'ident' or x.text in ('mut', 'ref', '_') or x.text.startswith('_'):
+                    return None
+                expect_name = False
+            elif depth == 0 and x.kind == 'punct' and x.text not in (':', '&', "'"):
+                if x.text not in ('::',):
+                    return None
+        q = bar_c + 1
+        while q < hi and toks[q].kind in ('ws', 'comment'):
+            q += 1
+        if q >= hi:
+            return None
+        if toks[q].kind == 'punct' and toks[q].text == '-':
+            return None                  # declared return type: leave alone
+        if toks[q].kind == 'punct' and toks[q].text == '{':
+            e = match_close(toks, q) + 1
+        else:
+            e = q
+            while e < hi:
+                te = toks[e]
+                if te.kind == 'punct' and te.text in rustlex.OPEN:
+                    e = match_close(toks, e) + 1
+                    continue
+                if te.kind == 'punct' and te.text in ',)]};':
+                    break
+                e += 1
+        body = toks[q:e]
+        sig = [x for x in body if x.kind not in ('ws', 'comment')]
+        if not sig or len(sig) > 120:
+            return None
+        for i, x in enumerate(sig):
+            nxt = sig[i + 1] if i + 1 < len(sig) else None
+            prv = sig[i - 1] if i else None
+            if x.kind == 'ident' and x.text in ('for', 'while', 'loop', 'return', 'break', 'continue', 'let',
+                                                 'unsafe', 'async', 'await', 'move', 'mut', 'fn', 'static', 'const'):
+                return None
+            if x.kind == 'ident' and nxt is not None and nxt.kind == 'punct' and nxt.text == '!' \
+                    and i + 2 < len(sig) and sig[i + 2].kind == 'punct' and sig[i + 2].text in '([{':
+                return None              # macro call
+            if x.kind == 'punct' and x.text in (';', '?'):
+                return None
+            if x.kind == 'punct' and x.text == '|':
+                return None              # nested closure or `|`/`||`: Verus rejects `|` on bools; keep out
+            if x.kind == 'punct' and x.text == '=':
+                # only as part of == <= >= != =>
+                ok = False
+                if nxt is not None and nxt.kind == 'punct' and nxt.text in ('=', '>') and nxt.start == x.start + 1:
+                    ok = True
+                if prv is not None and prv.kind == 'punct' and prv.text in ('=', '<', '>', '!') and prv.start + 1 == x.start:
+                    ok = True
+                if not ok:
+                    return None
+        self.unit['_auto_seq'][0] += 1
+        marker = '__ar_%s_%d' % (re.sub(r'\W+', '_', self.fnkey), self._closure_no)
+        if isinstance(off, (set, frozenset, list)) and marker in off:
+            return None
+        spec_text = self._map_tokens(list(body), pathmap)
+        return marker, q, e, spec_text
 
     def _closure_tuple_params(self, bar_o, bar_c):
         """`let PAT = __cpK;` for every parameter K of the closure header toks[bar_o..bar_c]
@@ -2074,10 +2173,32 @@ def strip_attrs_and_docs(sf, s, e):
     return ''.join(out)
 
 
-def build(unit_dir, repo, canary=False):
-    """Return dict(text=..., linemap=[origin per line], log=[...], items=[...])."""
+def _spec_keys(text):
+    """Normalised names (`Option::map_or`, `cmp::max`) of the functions given an assume_specification in text."""
+    keys = []
+    for m in re.finditer(r'assume_specification\s*(?:<[^\[]*>)?\s*\[\s*([^\]]+?)\s*\]', text):
+        path = re.sub(r'\s+', '', m.group(1))
+        # drop generic argument lists
+        out, depth = [], 0
+        for ch in path:
+            if ch == '<':
+                depth += 1
+            elif ch == '>':
+                depth -= 1
+            elif depth == 0:
+                out.append(ch)
+        segs = [x for x in ''.join(out).split('::') if x]
+        keys.append('::'.join(segs[-2:]))
+    return keys
+
+
+def build(unit_dir, repo, canary=False, auto_off=None):
+    """Return dict(text=..., linemap=[origin per line], log=[...], items=[...]).
+    auto_off: set of R22 marker names whose automatic closure postcondition is to be left out, or 'ALL'."""
     unit = load_unit(unit_dir, repo)
     unit['_canary'] = canary
+    unit['_auto_off'] = auto_off if auto_off is not None else set()
+    unit['_auto_seq'] = [0]
     ov = Overlay(unit['overlay_path'])
     log = []
     pieces = []
@@ -2103,11 +2224,35 @@ def build(unit_dir, repo, canary=False):
     for u in unit.get('uses', []):
         head.append(u + '\n')
     head.append('verus! {\n')
+    # R22 helper: one type parameter, so that the closure's result type is inferred from its body
+    head.append('pub open spec fn __same_val<T>(a: T, b: T) -> bool { a == b }\n')
     pieces.append(Piece(''.join(head), ('gen', 'header')))
     env = open(unit['env_path'], encoding='utf-8').read()
     if not env.endswith('\n'):
         env += '\n'
     pieces.append(Piece(env, ('env', unit['env_path'], 1)))
+    # common environment (units/_common/std_combinators.rs): std combinators without a vstd specification;
+    # an item is left out when env.rs or the overlay already declares the same function
+    common_path = os.path.join(os.path.dirname(os.path.normpath(unit_dir)), '_common', 'std_combinators.rs')
+    if os.path.exists(common_path) and not unit.get('no_common'):
+        have = set(_spec_keys(env) + _spec_keys(open(unit['overlay_path'], encoding='utf-8').read()))
+        ctext = open(common_path, encoding='utf-8').read().split('\n')
+        i = 0
+        while i < len(ctext):
+            if ctext[i].startswith('pub assume_specification'):
+                e = i
+                while not ctext[e].rstrip().endswith(';'):
+                    e += 1
+                item = '\n'.join(ctext[i:e + 1]) + '\n'
+                ks = _spec_keys(item)
+                if ks and ks[0] not in have:
+                    pieces.append(Piece(item, ('env', common_path, i + 1)))
+                else:
+                    log.append({'rule': 'common-env', 'fn': '', 'line': i + 1,
+                                'what': 'common declaration of %s left out: the unit declares it itself' % (ks[0] if ks else '?')})
+                i = e + 1
+            else:
+                i += 1
     for text, line in ov.prelude:
         pieces.append(Piece(text + '\n', ('overlay', unit['overlay_path'], line, None, 'prelude')))
 
